@@ -84,11 +84,20 @@ def err_kind(e: BaseException) -> str:
 # ----------------------------------------------------------------------------- graphs
 def make_graph(all_modules, imports, level_limit=None):
     """imports: iterable of (importer, importee)."""
-    return EvaluableArchitectureGraph(
+    ev = EvaluableArchitectureGraph(
         NetworkxGraph(
             list(all_modules), [AbsoluteImport(a, b) for a, b in imports], level_limit
         )
     )
+    # a caller that reads the public module listing and empties the list it was handed: that list is the caller's, the
+    # architecture (and every rule evaluated on it afterwards) is unaffected
+    try:
+        listed = ev.modules
+        if isinstance(listed, list):
+            listed.clear()
+    except Exception:  # noqa: BLE001
+        pass
+    return ev
 
 
 def graph_snapshot(ev):
